@@ -317,6 +317,10 @@ static inline void edn_string_set_has_escapes(edn_value_t* value, bool has_escap
     }
 }
 
+/* Maximum nesting of collections, tagged literals, discards and metadata
+ * markers accepted by the reader (bounds its recursion). */
+#define EDN_MAX_NESTING_DEPTH 100
+
 /* Parser state */
 typedef struct {
     const char* input;
